@@ -57,3 +57,37 @@ def run(chk):
         "numbers outside the int range are observation counters only",
         "index lists: non-negative and negative integers, reversed range "
         "tokens (5:3) are observation counters only"]
+
+
+def replay(path):
+    """re-run one witness: a range expression (observed behaviour is
+    printed) or a (pattern, string) pair"""
+    import json
+    w = json.load(open(path))
+    wit = w.get("witness", {})
+    print(json.dumps(w, indent=1)[:4000])
+    h = vf.build_harness("asan", "c18", xtp=True)
+    if "expression" in wit:
+        cmd = [h, "--expr", wit["expression"]]
+    elif "pattern" in wit:
+        cmd = [h, "--pattern", wit["pattern"], "--string",
+               wit.get("string", "")]
+    else:
+        return 0
+    res = vf.run_proc(cmd, env=vf.lib_env("asan"), timeout=300)
+    print(res.out)
+    if "expression" in wit:
+        exp = wit.get("expected_sequence")
+        for rec in res.records():
+            for smp in rec.get("samples", []):
+                got = smp.get("sequence_first24")
+                if smp.get("iteration_exceeded_1e6_steps") or (
+                        exp is not None and not smp.get("rejected") and
+                        got != exp[:24]):
+                    print("VIOLATION property=C18 replay=%s" % path)
+                    return 1
+        return 0
+    if '"t":"violation"' in res.out:
+        print("VIOLATION property=C18 replay=%s" % path)
+        return 1
+    return 0
